@@ -62,8 +62,7 @@ HOT = ['frompickle-mem', 'fromcsv-mem', 'fromcsv-path',
        'fromdb-conn', 'fromdb-factory', 'biselect', 'aggregate']
 
 
-FAULT_KINDS = ['plain', 'plain', 'type', 'value', 'key', 'index', 'attr',
-               'os', 'abort']
+FAULT_KINDS = devices.SOURCE_ERROR_KINDS + ['plain', 'plain']
 
 
 def _is_injected(t, ex):
